@@ -194,7 +194,18 @@ func (w *world) run(rep int) map[string]any {
 		}(a, seq)
 	}
 	close(start)
-	wg.Wait()
+	// every operation is an in-memory call: one that has not returned after 20 s never will
+	fin := make(chan struct{})
+	go func() { wg.Wait(); close(fin) }()
+	select {
+	case <-fin:
+	case <-time.After(20 * time.Second):
+		atomic.StoreInt32(&wedged, 1)
+		mu.Lock()
+		part := append([]op{}, ops...)
+		mu.Unlock()
+		return map[string]any{"regime": w.c.Regime, "maxidle": w.c.MaxIdle, "primed": w.primed, "ops": part, "closed": []int{}, "stuck": true}
+	}
 	// what every linearization must end with
 	fo := op{K: "shutdown", Actor: 0, Inv: tick()}
 	w.pool.Shutdown()
@@ -221,8 +232,10 @@ func (w *world) run(rep int) map[string]any {
 		ops[i].Inv, ops[i].Ret = rank[ops[i].Inv], rank[ops[i].Ret]
 	}
 	sort.Slice(ops, func(i, j int) bool { return ops[i].Inv < ops[j].Inv })
-	return map[string]any{"regime": w.c.Regime, "maxidle": w.c.MaxIdle, "primed": w.primed, "ops": ops, "closed": closed}
+	return map[string]any{"regime": w.c.Regime, "maxidle": w.c.MaxIdle, "primed": w.primed, "ops": ops, "closed": closed, "stuck": false}
 }
+
+var wedged int32
 
 func main() {
 	casesPath, outPath := os.Args[1], os.Args[2]
@@ -264,12 +277,18 @@ func main() {
 			go func(j int) {
 				defer wg.Done()
 				defer func() { <-sem }()
+				if atomic.LoadInt32(&wedged) == 1 {
+					return
+				}
 				b, _ := json.Marshal(jobs[j].w.run(jobs[j].rep))
 				res[j] = b
 			}(j)
 		}
 		wg.Wait()
 		for j := range jobs {
+			if res[j] == nil {
+				continue
+			}
 			key := string(raw[jobs[j].idx]) + "|" + string(res[j])
 			histories++
 			if !seen[key] {
@@ -283,6 +302,9 @@ func main() {
 		jobs = jobs[:0]
 	}
 	for i := range raw {
+		if atomic.LoadInt32(&wedged) == 1 {
+			break
+		}
 		var c pcase
 		json.Unmarshal(raw[i], &c)
 		for rep := 0; rep < reps; rep++ {
@@ -297,6 +319,6 @@ func main() {
 	}
 	bw.Flush()
 	out.Close()
-	st, _ := json.Marshal(map[string]any{"histories": histories, "distinct": distinct, "seconds": time.Since(t0).Seconds()})
+	st, _ := json.Marshal(map[string]any{"histories": histories, "distinct": distinct, "seconds": time.Since(t0).Seconds(), "stuck": atomic.LoadInt32(&wedged)})
 	os.WriteFile(outPath+".ok", st, 0o644)
 }
